@@ -39,6 +39,7 @@ def run(ck, fb):
     r02f(ck, fb)
     r02g(ck, fb)
     r02h(ck, fb)
+    r02i(ck, fb)
 
 
 def r02a(ck, fb):
@@ -272,15 +273,15 @@ def r02g(ck, fb):
         ck.require(ok, 'R02g', 'write_log_result_to_result:LogIndexEqualError->Err', b.where(), 'LogIndexEqualError is not mapped to Err')
 
 
-def r02h(ck, fb):
-    ck.rule('R02h', 'zero terminator: LogInnerManager::write extends the file whenever file_len <= data_cursor + len (non-strict), so that at least '
+def r02h(ck, fb, R='R02h'):
+    ck.rule(R, 'zero terminator: LogInnerManager::write extends the file whenever file_len <= data_cursor + len (non-strict), so that at least '
                     'one zero byte follows the last record - the end-of-log recovery scan (move_to_index_by_count) stops on the first zero length '
                     'and does not count the records it scanned when it runs into end-of-file instead')
-    w = ck.main(LIM + 'write', 'R02h')
+    w = ck.main(LIM + 'write', R)
     if not w:
         return
     sl = util.sites_on_field(w, r'tokio::fs::File::set_len$', 'data_file')
-    ck.floor('R02h', 'set_len in write()', len(sl), 1)
+    ck.floor(R, 'set_len in write()', len(sl), 1)
     for s in sl:
         ok = False
         for a in cfg.guard_atoms(w, s.bb):
@@ -294,8 +295,20 @@ def r02h(ck, fb):
                 ok = True
             if fbb and ((a[1] == 'Ge' and a[4] is True) or (a[1] == 'Lt' and a[4] is False)):
                 ok = True
-        ck.require(ok, 'R02h', 'write:extend-keeps-zero-terminator', s.where(),
+        ck.require(ok, R, 'write:extend-keeps-zero-terminator', s.where(),
                    'the file is only extended when file_len < data_cursor + len (strict): a record may end exactly on the end of the file, the recovery scan '
                    'then hits end-of-file instead of a zero length and forgets every entry after the last 128-record index entry on reopen')
         wa = util.sites_on_field(w, r'AsyncWriteExt::write_all$', 'data_file', deep=1)
-        ck.require(bool(wa) and all(s.bb in cfg.reach_to(w, [x.bb]) for x in wa), 'R02h', 'write:extend-before-write', s.where(), 'the extension does not precede the data write')
+        ck.require(bool(wa) and all(s.bb in cfg.reach_to(w, [x.bb]) for x in wa), R, 'write:extend-before-write', s.where(), 'the extension does not precede the data write')
+
+
+def r02i(ck, fb, R='R02i'):
+    ck.rule(R, 'end-of-log detection: MessageBufReader::is_empty, which move_to_index_by_count uses after draining each 1024-byte chunk to '
+               'recognise the zero padding, is true exactly when a valid byte exists and is zero (interpreted on every state class) - a drained '
+               'chunk or a stale byte behind `end` must not end the scan')
+    from rules.c20 import is_empty_table
+    is_empty_table(ck, fb, R)
+    mv = ck.main(LIM + 'move_to_index_by_count', R)
+    if mv:
+        ck.require(len(util.region_calls(fb, mv, r'MessageBufReader::is_empty$')) >= 1, R,
+                   'move_to_index_by_count:uses-is_empty', mv.where(), 'the recovery scan no longer asks the reader for the end marker')
